@@ -268,6 +268,27 @@ func c34oracle(c *Ctx, s *c34state, line string) {
 			}
 		}
 	}
+	// no node in two places (entries and replacement caches of all buckets together), caches within limits
+	where := map[dht.NodeID]string{}
+	for i := 0; i < dht.VerifNBuckets; i++ {
+		e, rp := s.tab.Dump(i)
+		if len(rp) > dht.VerifBucketSize {
+			c.Fail(fmt.Sprintf("replacement cache of bucket %d holds %d nodes: %s", i, len(rp), line), s.dump("-"))
+		}
+		for k, n := range append(append([]*dht.Node{}, e...), rp...) {
+			kind := "entries"
+			if k >= len(e) {
+				kind = "replacements"
+			}
+			here := fmt.Sprintf("%s of bucket %d", kind, i)
+			if prev, ok := where[n.ID]; ok && !(prev == here && kind == "entries") { // duplicates inside one entries list are reported above
+				if !s.parked {
+					c.Fail(fmt.Sprintf("node %s is in two places (%s and %s): %s", s.lab(n), prev, here, line), s.dump("-"))
+				}
+			}
+			where[n.ID] = here
+		}
+	}
 	if sum != s.tab.Count() {
 		c.Fail(fmt.Sprintf("count %d != %d entries: %s", s.tab.Count(), sum, line), s.dump("-"))
 	}
@@ -280,12 +301,125 @@ func c34oracle(c *Ctx, s *c34state, line string) {
 	if maxRepl == dht.VerifBucketSize {
 		c.Count("state/replacements-full")
 	}
+	// two adjacent buckets full, the lower one with a full cache, the upper one with parked nodes
+	for i := 0; i+1 < dht.VerifNBuckets; i++ {
+		e0, r0 := s.tab.Dump(i)
+		if len(e0) == dht.VerifBucketSize && len(r0) == dht.VerifBucketSize {
+			if e1, r1 := s.tab.Dump(i + 1); len(e1) == dht.VerifBucketSize && len(r1) > 0 {
+				c.Count("state/adjacent-full-with-caches")
+			}
+		}
+	}
 }
 
 var c34bucketChoices = []int{256, 256, 255, 255, 254, 253, 251, 249, 247}
 
+// c34genAdjacent fills two ADJACENT buckets d and d+1: at least 33 distinct nodes at distance d (16
+// entries + a full replacement cache + newcomers) and at least 17 at distance d+1 (16 entries + parked
+// replacements), then keeps adding newcomers at distance d while entries of bucket d+1 are deleted /
+// deleteReplace'd until its replacement cache is drained, interleaved with random ops.
+func c34genAdjacent(c *Ctx) []string {
+	r := c.Rng
+	d := []int{255, 255, 254, 254, 253, 252}[r.Intn(6)]
+	nLo := 33 + r.Intn(8) // distance d
+	nHi := 17 + r.Intn(6) // distance d+1
+	nOther := r.Intn(4)
+	var sb strings.Builder
+	sb.WriteString("reset 0")
+	var lo, hi, other []int
+	l := 1
+	for i := 0; i < nLo; i++ {
+		lo = append(lo, l)
+		fmt.Fprintf(&sb, " %d:%d", l, d)
+		l++
+	}
+	for i := 0; i < nHi; i++ {
+		hi = append(hi, l)
+		fmt.Fprintf(&sb, " %d:%d", l, d+1)
+		l++
+	}
+	for i := 0; i < nOther; i++ {
+		other = append(other, l)
+		fmt.Fprintf(&sb, " %d:%d", l, []int{256, 251, 249}[r.Intn(3)])
+		l++
+	}
+	out := []string{sb.String()}
+	strs := func(ls []int) string {
+		p := make([]string, len(ls))
+		for i, x := range ls {
+			p[i] = strconv.Itoa(x)
+		}
+		return strings.Join(p, " ")
+	}
+	// bucket d+1: 16 entries and some parked replacements; bucket d: 16 entries, cache filled one by one
+	fillHi := func() {
+		out = append(out, "stuff "+strs(hi[:16]))
+		for _, x := range hi[16:] {
+			out = append(out, fmt.Sprintf("add %d", x))
+		}
+	}
+	fillLo := func(upTo int) {
+		out = append(out, "stuff "+strs(lo[:16]))
+		for _, x := range lo[16:upTo] {
+			out = append(out, fmt.Sprintf("add %d", x))
+		}
+	}
+	upTo := 32 - r.Intn(3) // the cache of d is full (or nearly) before the newcomers arrive
+	if r.Intn(2) == 0 {
+		fillHi()
+		fillLo(upTo)
+	} else {
+		fillLo(upTo)
+		fillHi()
+	}
+	next := upTo
+	hiEntries := append([]int(nil), hi[:16]...)
+	for i, n := 0, 20+r.Intn(60); i < n; i++ {
+		switch x := r.Intn(100); {
+		case x < 35: // a newcomer (or a returning node) at distance d
+			if next < len(lo) && r.Intn(3) != 0 {
+				out = append(out, fmt.Sprintf("add %d", lo[next]))
+				next++
+			} else {
+				out = append(out, fmt.Sprintf("add %d", lo[r.Intn(len(lo))]))
+			}
+		case x < 65: // drain bucket d+1's replacement cache
+			op := "delrep"
+			if r.Intn(4) == 0 {
+				op = "del"
+			}
+			if len(hiEntries) > 0 && r.Intn(4) != 0 {
+				k := r.Intn(len(hiEntries))
+				out = append(out, fmt.Sprintf("%s %d", op, hiEntries[k]))
+				hiEntries = append(hiEntries[:k], hiEntries[k+1:]...)
+			} else {
+				out = append(out, fmt.Sprintf("%s %d", op, hi[r.Intn(len(hi))]))
+			}
+		case x < 75:
+			out = append(out, fmt.Sprintf("add %d", hi[r.Intn(len(hi))]))
+		case x < 83:
+			out = append(out, fmt.Sprintf("delrep %d", lo[r.Intn(len(lo))]))
+		case x < 88:
+			out = append(out, fmt.Sprintf("bump %d", lo[r.Intn(len(lo))]))
+		case x < 93 && len(other) > 0:
+			out = append(out, fmt.Sprintf("add %d", other[r.Intn(len(other))]))
+		default:
+			var ls []int
+			for j := 1 + r.Intn(5); j > 0; j-- {
+				ls = append(ls, 1+r.Intn(l-1))
+			}
+			out = append(out, "stuff "+strs(ls))
+		}
+	}
+	return out
+}
+
 func c34gen(c *Ctx) []string {
 	r := c.Rng
+	if r.Intn(6) == 0 {
+		c.Count("case/adjacent-buckets-full")
+		return c34genAdjacent(c)
+	}
 	nb := 1 + r.Intn(3)
 	bs := make([]int, nb)
 	for i := range bs {
@@ -368,7 +502,7 @@ func c34gen(c *Ctx) []string {
 }
 
 func runC34(c *Ctx) {
-	c.Rule = "populations of 3–40 node ids placed (by NodeID search) in 1–3 of the buckets {256,255,254,253,251,249,247}, self included in some ops; sequences of 10–300 ops add/stuff/del/delrep/bump, half of them starting from a bulk-filled table; every op's full table dump is compared with the model; an op is distinct by (case, line); non-trivial = the table has a full bucket or parked replacements"
+	c.Rule = "populations of 3–40 node ids placed (by NodeID search) in 1–3 of the buckets {256,255,254,253,251,249,247}, self included in some ops; 1/6 of the cases fill two ADJACENT buckets d, d+1 (d in 252..255) with 33–40 and 17–22 distinct nodes (both full, both replacement caches in use) and then mix newcomers at distance d with del/deleteReplace draining bucket d+1; sequences of 10–300 ops add/stuff/del/delrep/bump, half of them starting from a bulk-filled table; every op's full table dump is compared with the model; an op is distinct by (case, line); non-trivial = the table has a full bucket or parked replacements"
 	s := &c34state{}
 	lines := c.CorpusLines()
 	if c.Replay != "" {
